@@ -24,6 +24,9 @@ CONFIGS = {
     # two looms: isolation of CPU sets and remote affinity
     "AB": [{"name": "A", "cpus": [(0, 1), (1, 0)], "procs": [{"pid": 100, "threads": [101, 102]}]},
            {"name": "B", "cpus": [(0, 0)], "procs": [{"pid": 300, "threads": [301]}]}],
+    # two processes with one thread each (per-process thread tables, remote lookups through the loom)
+    "P2": [{"name": "A", "cpus": [(0, 1), (1, 0)],
+            "procs": [{"pid": 100, "threads": [101]}, {"pid": 200, "threads": [201]}]}],
     # smallest: one physical cpu
     "A2c1": [{"name": "A", "cpus": [(0, 4)], "procs": [{"pid": 100, "threads": [101, 102]}]}],
 }
@@ -345,7 +348,7 @@ def run(prop, tier):
         build = Build()
         exe = build.harness("plain", "emu_server", ["emu_server.c"])
         if prop == "C04":
-            plan = [("A2", (1,), 2)] if tier == "quick" else [("A2", (1, 0), 3), ("A3", (1,), 2), ("AB", (1,), 2)]
+            plan = [("A2", (1,), 2), ("P2", (1,), 1)] if tier == "quick" else [("A2", (1, 0), 3), ("P2", (1,), 2), ("A3", (1,), 2), ("AB", (1,), 2)]
         else:
             plan = [("A2", (1, 0), 2), ("A2c1", (1,), 2)] if tier == "quick" else [("A3", (1, 0), 2), ("AB", (1, 0), 2), ("A2c1", (1, 0), 3)]
         for (cfgname, dts, bdepth) in plan:
